@@ -19,7 +19,7 @@ Record obs := mkObs {
 Inductive case := Case (k : cfg) (tr : list (op * obs)).
 
 Definition okp : plan :=
-  mkPlan WOk POk WOk false HReady WOk WOk false WOk WOk WOk WOk WOk WOk WOk false WOk WOk.
+  mkPlan WOk POk WOk false HReady WOk WOk false WOk WOk WOk WOk WOk WOk WOk false WOk WOk false false.
 
 Fixpoint list_eqb {A} (eqb : A -> A -> bool) (a b : list A) : bool :=
   match a, b with
